@@ -84,6 +84,7 @@ type StreamCfg struct {
 	ZProb           float64 // VP9: probability that a lower-layer frame is non-reference
 	MaxPktsPerFrame int
 	MaxFill         int // filler bytes per packet 0..MaxFill
+	MaxTotal        int // if > 0, one packet in eight is filled up to a total size of MaxTotal-4..MaxTotal bytes
 	Pictures        int
 }
 
@@ -286,6 +287,11 @@ func Generate(cfg *StreamCfg, r *rand.Rand) []*Pkt {
 				fill := 0
 				if cfg.MaxFill > 0 {
 					fill = r.IntN(cfg.MaxFill + 1)
+				}
+				if cfg.MaxTotal > 0 && r.IntN(8) == 0 {
+					if f := cfg.MaxTotal - r.IntN(5) - 12 - 4*cfg.CSRCs - len(payload); f > 0 {
+						fill = f
+					}
 				}
 				for f := 0; f < fill; f++ {
 					payload = append(payload, byte(r.UintN(256)))
